@@ -110,8 +110,14 @@ def check(prog, run):
                     run.report(r, "%s:%s.%s:hooks" % (mod, name, cn), c.where(), "%s does not fire on_execution_end exactly once on every path: %s" % (cn, sorted(paths)))
         raisers = {}
         for n in own_nodes(f.node):
-            if isinstance(n, ast.Call) and isinstance(n.func, ast.Name):
-                for callee in prog.resolve_call(f, n):
+            if isinstance(n, ast.Call) and isinstance(n.func, (ast.Name, ast.Attribute)):
+                # module functions and methods alike (`executor.collect_fields(..)` evaluates @skip / @include and may fail)
+                cands = prog.resolve_call(f, n, dynamic=True) if isinstance(n.func, ast.Attribute) else prog.resolve_call(f, n)
+                if not cands and isinstance(n.func, ast.Attribute) and n.func.attr not in excflow.GENERIC_NAMES and hook_name(n) is None:
+                    byname = prog.methods_named(n.func.attr)       # receiver of unknown class: the method by name, as the may-raise engine does
+                    if 0 < len(byname) <= excflow.BY_NAME_CAP:
+                        cands = byname
+                for callee in cands:
                     if callee.module.name.startswith("py_gql") and callee.name != "__init__":
                         res = mr.of(callee)
                         lib = sorted(e for e in res if e in mr.u.repo or e == "RuntimeError")
